@@ -182,9 +182,24 @@ pub fn verify_with(
     dir: &Path,
     driver: Driver,
 ) -> (Verdict, Driver) {
+    verify_named_with(layout, owner_keys, dir, None, driver)
+}
+
+/// `name` is the public `step_name` parameter: the name requested for the summary link.
+pub fn verify_named(layout: &Metablock, owner_keys: HashMap<KeyId, PublicKey>, dir: &Path, name: Option<&str>) -> Verdict {
+    verify_named_with(layout, owner_keys, dir, name, default_driver()).0
+}
+
+pub fn verify_named_with(
+    layout: &Metablock,
+    owner_keys: HashMap<KeyId, PublicKey>,
+    dir: &Path,
+    name: Option<&str>,
+    driver: Driver,
+) -> (Verdict, Driver) {
     let prev = verif_hooks::install(driver);
     let d = dir.to_str().unwrap().to_string();
-    let r = guard(|| in_toto::verifylib::in_toto_verify(layout, owner_keys, &d, None));
+    let r = guard(|| in_toto::verifylib::in_toto_verify(layout, owner_keys, &d, name));
     let drv = verif_hooks::uninstall().unwrap_or_default();
     if let Some(p) = prev {
         verif_hooks::install(p);
